@@ -35,6 +35,9 @@ func (ex *Exec) mapUpdate(mv, k, v Value) {
 	if m == nil {
 		panic(ex.goPanic("assignment to entry in nil map"))
 	}
+	if len(ex.W.watches) > 0 {
+		ex.noteMapWrite(m)
+	}
 	tt := ex.tt
 	if m.sym {
 		kt, vt := k.(*Term), v.(*Term)
